@@ -103,7 +103,8 @@ func runCase(name string, ops []wop, overread int) {
 	bc := w.BitCount()
 	w.Close()
 	data := append([]byte(nil), w.Bytes()...)
-	emit("bw close", fmt.Sprintf("bytes=%s bits=%d", hx(data), bc))
+	// (plain hex here, not hx: the model prints an empty buffer as the empty string)
+	emit("bw close", fmt.Sprintf("bytes=%s bits=%d", hex.EncodeToString(data), bc))
 
 	r := pkg.NewBitsReader()
 	r.Reset(data)
